@@ -94,7 +94,9 @@ def _noise_tol(np, ref, runs, floor_scale=None):
     dev = np.maximum.accumulate(dev, axis=1)
     dev = np.maximum(dev, 0.1 * dev.max(axis=0, keepdims=True))
     scale = float(np.abs(ref).max()) if floor_scale is None else floor_scale
-    tol = 200.0 * (dev / 1e-13) * EPS + 1e-13 * scale + 1e-300
+    # 400 (not 200): the spread is estimated from a handful of noisy runs; for 2-3 step
+    # histories that estimate is itself noisy (one observed 1.02 in 30 seeds at 200)
+    tol = 400.0 * (dev / 1e-13) * EPS + 1e-13 * scale + 1e-300
     cond = float(dev.max() / (1e-13 * scale)) if scale > 0 else 0.0
     return tol, cond
 
@@ -282,7 +284,7 @@ def run_newmark_case(sh, np, ode, rec, C, r, case):
         sh.refused += 1
         sh.count("refused:nm-oracle-diverges")
         return
-    runs = [rec.newmark(*args, **kw, noise=(r, 1e-13)) for _ in range(4)]
+    runs = [rec.newmark(*args, **kw, noise=(r, 1e-13)) for _ in range(6)]
     # separate monitor names for the stratum of the open finding nonlin-rf-first-call,
     # so that its observations do not hide the margins of the other strata
     pre = "nm-nlrf-" if tags["nl_with_rf_not_trailing"] else "nm-"
@@ -450,7 +452,7 @@ def part_cdf(sh, np, ode, rec, params):
             args = (C["mass"], C["C"], C["kd"], C["F"], C["h"], d0, C["v0"])
             okw = dict(order=C["order"], rf=C["rf"])
             ref = rec.cdf(*args, **okw)
-            runs = [rec.cdf(*args, **okw, noise=(r, 1e-13)) for _ in range(4)]
+            runs = [rec.cdf(*args, **okw, noise=(r, 1e-13)) for _ in range(6)]
             for q in "dva":
                 tol, cond = _noise_tol(np, ref[q], [x[q] for x in runs])
                 if cond > 1e8:
